@@ -48,7 +48,7 @@ def _cases(draw, dmax):
     a = draw(S.operand(d, classes=classes, max_len=cap))
     b = draw(S.operand(d, classes=classes, max_len=cap)) if op != "normsq" else None
     return {"cfg": cfg, "op": op, "a": a, "b": b, "mode": draw(st.sampled_from(["generic", "generic", "frac", "typed"])),
-            "cse": draw(st.booleans()), "symcls": draw(st.sampled_from([None, None, None, "sympy"])),
+            "cse": draw(st.booleans()), "symcls": draw(st.sampled_from([None, None, None, "sympy", "poly", "ratpoly"])),
             "wrapper": draw(st.integers(0, 4)) == 0}
 
 
@@ -211,7 +211,8 @@ def evaluate(case):
                 raise Violation("composition-vs-reference", op, f"{what} (keys {list(xx.keys())}, wrapper={bool(case.get('wrapper'))}): {why}",
                                 observed=kd.show(kd.to_dict(r2)), expected=kd.show(exp))
     counters = {}
-    if case["mode"] == "frac" and ref.d <= 2 and len(ka) <= 3 and (kb is None or len(kb) <= 3) and not case.get("wrapper"):
+    if case["mode"] == "frac" and ref.d <= 2 and len(ka) <= 3 and (kb is None or len(kb) <= 3) and not case.get("wrapper") \
+            and case.get("symcls") != "poly":          # Polynomial symbols have no division: a.inv() is outside that option's domain
         # the operator applied to a RATIONAL-function operand while a symbolically registered function is generated:
         # alg.register(symbolic=True)(lambda a, b: a.inv() >> b) on (a, b) must be inv(a) >> b
         try:
